@@ -3,11 +3,23 @@ import MdIt.Props.C12Ctx
 open MdIt.Pipeline
 
 #check @reference_in_title
+#check @reference_in_title_any
 #check @reference_in_destination
+#check @reference_in_bare_destination
 #check @reference_in_definition
+#check @reference_in_image
+#check @contexts_agree
+#check @stock_contexts_agree
 #check @parseDoc_inline_link
+#check @parseDoc_inline_image
 
 #print axioms reference_in_title
+#print axioms reference_in_title_any
 #print axioms reference_in_destination
+#print axioms reference_in_bare_destination
 #print axioms reference_in_definition
+#print axioms reference_in_image
+#print axioms contexts_agree
+#print axioms stock_contexts_agree
 #print axioms parseDoc_inline_link
+#print axioms parseDoc_inline_image
